@@ -5,6 +5,7 @@ import math
 
 from .. import alphabets as A
 from .. import families as F
+from .. import impl as I
 from .. import slamfam as SF
 from .. import squares as SQ
 from ..ref import geom as G
@@ -107,6 +108,9 @@ def graphs(tier, seed):
             out.append(("slam", {"kind": kind, "fam": fam, "n": 3, "noise": "sin", "nz": 0.02, "share": True}))
             # landmarks initialised hundreds of units away: one exact (large) step brings them back, in every frame
             out.append(("slam", {"kind": kind, "fam": fam, "n": 6, "noise": "sin", "nz": 0.02, "lm_far": True}))
+            # landmark observations that agree EXACTLY (error 0.0, bit for bit) with the initial guess in the original frame, next to noisy odometry:
+            # in a displaced frame the same residuals are 1e-16, and the trajectories must still correspond
+            out.append(("slam", {"kind": kind, "fam": fam, "n": 6, "noise": "sin", "nz": 0.02, "lm_exact": True}))
     return out
 
 
@@ -127,6 +131,13 @@ def spec_of(gdesc, seed):
         spec["vertices"][1]["pose"] = list(spec["edges"][0]["z"]) if spec["vertices"][0]["pose"][: len(spec["edges"][0]["z"])] == [0.0] * 0 else spec["vertices"][1]["pose"]
         spec["edges"][0]["z"] = list(spec["vertices"][1]["pose"])
         spec["share"] = [["vertex", 1, "estimate", 0]]
+    if d.get("lm_exact"):
+        byid = {v["id"]: v for v in spec["vertices"]}
+        pk = "R2" if d["kind"] == "SE2" else "R3"
+        for e in spec["edges"]:
+            if e["type"] == "lm":
+                sens = I.mk_pose(d["kind"], byid[e["ids"][0]]["pose"]) + I.mk_pose(d["kind"], e["off"])
+                e["z"] = I.comps(sens.inverse + I.mk_pose(pk, byid[e["ids"][1]]["pose"]))
     if d.get("lm_far"):
         for k, v in enumerate(spec["vertices"]):
             if v["id"] >= 1000:
